@@ -643,4 +643,16 @@ Proof.
   - destruct (has_auth K); [|exact P1]. destruct (abeh (conns s c)); [exact P1| |]; (eapply inv3_tables; [..|exact H]; reflexivity).
   - destruct (fork_parent_keeps (fx K)); (eapply inv3_tables; [..|exact H]; reflexivity).
 Qed.
+
+Lemma inv3_step s e s' : Inv2 s -> Inv3 s -> step e s = Some s' -> Inv3 s'.
+Proof.
+  intros I2 I H.
+  step_cases H.
+  all: try (apply inv3_server_close; assumption).
+  all: try (apply inv3_accept; assumption).
+  all: try (apply inv3_finish_own).
+  all: try (apply inv3_serve_on; assumption).
+  all: try (eapply inv3_tables; [..|first [eassumption | apply inv3_serve_on; eassumption]]; simp_state; reflexivity).
+  Show.
+Abort.
 End P.
